@@ -68,6 +68,72 @@ func (l *ledger) contractSupplyOracle(b *types.Block, miner common.Address, byHa
 	if burn.Sign() > 0 {
 		c.Count("contract:burn>0")
 	}
+	// ---- creations: "the amount moves from sender to recipient ONLY IF the transaction succeeds". The contract address is
+	// fresh (derived from the tx hash) and no other tx of the block can name it: after the block it holds the endowment and
+	// code (success) or nothing at all (failure: the sender paid the fee and nothing else).
+	txsOf := map[common.Address]int{}
+	for _, tx := range b.Txs {
+		txsOf[tx.From()]++
+		if tx.GasPayer() != tx.From() {
+			txsOf[tx.GasPayer()]++
+		}
+		if tx.To() != nil {
+			txsOf[*tx.To()]++
+		}
+	}
+	minerIncome := l.view(b.ParentHash(), miner).income
+	for _, tx := range b.Txs {
+		if tx.Type() != params.CreateContractTx {
+			continue
+		}
+		lt := byHash[tx.Hash()]
+		k := crypto.CreateContractAddress(tx.From(), tx.Hash())
+		code, _ := account.NewManager(b.Hash(), l.n.DB).GetAccount(k).GetCode()
+		succeeded := len(code) > 0
+		got := new(big.Int).Sub(l.n.balanceAt(b.Hash(), k), parentBal(k))
+		cause := "create"
+		if lt != nil && lt.need > 0 && tx.GasLimit() < lt.need && tx.GasLimit()+uint64(200*lt.rtLen) >= lt.need {
+			cause = "create-codestore" // the init code ran to completion, the code deposit could not be paid
+		}
+		fee := new(big.Int).Mul(new(big.Int).SetUint64(tx.GasUsed()), tx.GasPrice())
+		if succeeded {
+			c.Count("contract:creation-succeeded")
+			if got.Cmp(tx.Amount()) != 0 {
+				c.Fail("c05/created-contract-balance-wrong", fmt.Sprintf("block %d: successful creation with amount %s: the contract address received %s", b.Height(), tx.Amount(), got), nil)
+			}
+		} else {
+			c.Count("contract:creation-failed:" + cause)
+			if tx.Amount().Sign() > 0 {
+				c.Count("contract:creation-failed-with-value:" + cause)
+			}
+			if got.Sign() != 0 {
+				c.Fail("c05/failed-tx-moved-value/"+cause, fmt.Sprintf("block %d: the CreateContractTx (amount %s, gasLimit %d, gasUsed %d, class %s) FAILED — no code at %s — but the address received %s mo of the sender's money", b.Height(), tx.Amount(), tx.GasLimit(), tx.GasUsed(), classOf(lt), k.String(), got), nil)
+			}
+		}
+		// the sender's side, when nothing else in the block touches the sender
+		if from := tx.From(); txsOf[from] == 1 && from != minerIncome && tx.GasPayer() == from {
+			paid := new(big.Int).Sub(parentBal(from), l.n.balanceAt(b.Hash(), from))
+			want := new(big.Int).Set(fee)
+			if succeeded {
+				want.Add(want, tx.Amount())
+			}
+			c.Count("contract:creation-sender-side-judged")
+			if paid.Cmp(want) != 0 {
+				sig := "c05/failed-tx-moved-value/" + cause
+				if succeeded {
+					sig = "c05/creation-sender-charged-wrong"
+				}
+				c.Fail(sig, fmt.Sprintf("block %d: CreateContractTx (succeeded=%v, amount %s, fee %s = gasUsed %d x price): the sender paid %s, expected %s", b.Height(), succeeded, tx.Amount(), fee, tx.GasUsed(), paid, want), nil)
+			}
+		}
+		// the sweep knows the exact need: the outcome must be the predicted one
+		if lt != nil && lt.need > 0 {
+			if succeeded != (tx.GasLimit() >= lt.need) {
+				c.Fail("c05/create-outcome-unexpected", fmt.Sprintf("block %d: creation needing %d gas with gasLimit %d: succeeded=%v", b.Height(), lt.need, tx.GasLimit(), succeeded), nil)
+			}
+			c.Count("contract:" + lt.class)
+		}
+	}
 	// ---- observed change: (a) from the balances of every address the block names, (b) from the published logs
 	named := map[common.Address]bool{}
 	for _, cl := range b.ChangeLogs {
@@ -164,4 +230,33 @@ func classesOfBlock(b *types.Block, byHash map[common.Hash]*ledgerTx) []string {
 		}
 	}
 	return cs
+}
+
+func classOf(lt *ledgerTx) string {
+	if lt == nil {
+		return "?"
+	}
+	return lt.class
+}
+
+// measureCreate: the gas a successful deployment of `tx` needs, measured by a trial build on `parent` that is thrown away
+// (0 = the trial did not deploy).
+func (l *ledger) measureCreate(parent *types.Block, t uint32, tx *types.Transaction) uint64 {
+	_, k, err := l.inTurn(parent, t)
+	if err != nil {
+		return 0
+	}
+	need := uint64(0)
+	Safe(func() string {
+		b, _, _, err := l.buildRec(parent, t, types.Transactions{tx}, k, 0)
+		if err == nil && len(b.Txs) == 1 && b.Txs[0].GasUsed() < b.Txs[0].GasLimit() {
+			for _, cl := range b.ChangeLogs {
+				if cl.LogType == account.CodeLog {
+					need = b.Txs[0].GasUsed()
+				}
+			}
+		}
+		return ""
+	})
+	return need
 }
